@@ -1,5 +1,6 @@
 import Spake2Verif.Proofs.RandrangeProofs
 import Spake2Verif.Proofs.PropAuxB2
+import Spake2Verif.Proofs.PropAuxD
 /-!
 # C11 — Secret scalars are sampled without bias and only from the entropy function
 
@@ -24,8 +25,15 @@ Clause → theorem
                                                           : `draw_uniform`
 * at most two expected draws: `2^bits ≤ 2·maxval`, and at least half of all chunks are accepted
                                                           : `accept_half`, `accept_chunks_half` (acceptance probability ≥ 1/2
-                                                            per independent draw ⇒ geometric expectation ≤ 2; the expectation
-                                                            itself is not formalised)
+                                                            per independent draw ⇒ geometric expectation ≤ 2);
+                                                            as counting statements over the `256^(K·nb)` streams of `K` chunks:
+                                                            `randrange_undecided_iff` (not returned within `k` draws ⇔ all `k`
+                                                            candidates rejected ⇔ `EntropyExhausted`), `randrange_tail_bound`
+                                                            (such streams number `(rejecting chunks)^k ≤ (256^nb/2)^k`, a fraction
+                                                            `≤ 2^-k`), `randrange_returns_at_iff`, `randrange_returns_at_count`,
+                                                            `randrange_expected_draws_le_two` (`∑_{j<K} (j+1)·#{streams returning
+                                                            at draw j+1} ≤ 2·256^(K·nb)` for every horizon `K`: the partial
+                                                            expectation of the number of draws is at most 2)
 * every value for exactly the same number of byte inputs  : `randrange_uniform` (explicit count for every number `k` of draws),
                                                             `randrange_unbiased` (count independent of the value)
 * which value / how many bytes are consumed               : `randrange_first_accept`; otherwise `randrange_exhausted`;
@@ -282,5 +290,75 @@ example : Util.generate_mask 11 = (15, 1) ∧ Util.generate_mask 256 = (1, 2) :=
 
 /-- the toy group draws its scalar with the sampler above -/
 example : (intGroup ⟨23, 11, 2⟩).randomScalar ⟨[0xfa, 0x01]⟩ = .ok (10, ⟨[0x01]⟩) := by decide
+
+/-! ### at most two expected draws (counting over the streams of `K` chunks) -/
+
+/-- on a stream of exactly `k` chunks, "not returned within the first `k` draws" has one meaning: the call raises
+`EntropyExhausted` iff all `k` chunk candidates are rejected -/
+theorem randrange_undecided_iff {start stop : Int} (h : start < stop) {k : Nat} {s : Bytes}
+    (hs : s ∈ bytesOfLen (k * sizeBytes (stop - start))) :
+    unbiasedRandrange start stop ⟨s⟩ = raise .EntropyExhausted ↔
+      ∀ i < k, ¬ (cand (maskOf (stop - start)) (chunk (sizeBytes (stop - start)) s i) : Int)
+        < stop - start :=
+  PropAuxD.exhausted_iff h hs
+
+open Classical in
+/-- **tail bound**: among the `256^(k·nb)` streams of `k` chunks, those on which `unbiased_randrange` has not returned
+within the first `k` draws number exactly `(rejecting chunks)^k`; that is at most `(256^nb / 2)^k`, i.e. at most a
+fraction `2^-k` of all streams -/
+theorem randrange_tail_bound {start stop : Int} (h : start < stop) (k : Nat) :
+    ((bytesOfLen (k * sizeBytes (stop - start))).filter (fun s =>
+        unbiasedRandrange start stop ⟨s⟩ = raise .EntropyExhausted)).card =
+      ((2 ^ sizeBits (stop - start) - (stop - start).toNat) *
+          2 ^ (8 * sizeBytes (stop - start) - sizeBits (stop - start))) ^ k ∧
+    ((bytesOfLen (k * sizeBytes (stop - start))).filter (fun s =>
+        unbiasedRandrange start stop ⟨s⟩ = raise .EntropyExhausted)).card ≤
+      (256 ^ sizeBytes (stop - start) / 2) ^ k ∧
+    2 ^ k * ((bytesOfLen (k * sizeBytes (stop - start))).filter (fun s =>
+        unbiasedRandrange start stop ⟨s⟩ = raise .EntropyExhausted)).card ≤
+      256 ^ (k * sizeBytes (stop - start)) :=
+  PropAuxD.randrange_tail_bound h k
+
+/-- on a stream of `K` chunks and for `j < K`: the call returns leaving exactly the bytes after chunk `j` ("returns at
+draw `j+1`") iff chunk `j` is the first whose candidate is accepted -/
+theorem randrange_returns_at_iff {start stop : Int} (h : start < stop) {K : Nat} {s : Bytes}
+    (hs : s ∈ bytesOfLen (K * sizeBytes (stop - start))) {j : Nat} (hj : j < K) :
+    (∃ v, unbiasedRandrange start stop ⟨s⟩ =
+        .ok (v, ⟨s.drop ((j + 1) * sizeBytes (stop - start))⟩)) ↔
+      ((∀ i < j, ¬ (cand (maskOf (stop - start)) (chunk (sizeBytes (stop - start)) s i) : Int)
+          < stop - start) ∧
+        (cand (maskOf (stop - start)) (chunk (sizeBytes (stop - start)) s j) : Int)
+          < stop - start) :=
+  PropAuxD.returnsAt_iff h hs hj
+
+open Classical in
+/-- the number of `K`-chunk streams on which the call returns at draw `j+1` (`j < K`):
+`(rejecting chunks)^j · (accepting chunks) · (256^nb)^(K-1-j)` -/
+theorem randrange_returns_at_count {start stop : Int} (h : start < stop) (K j : Nat) (hj : j < K) :
+    ((bytesOfLen (K * sizeBytes (stop - start))).filter (fun s =>
+        ∃ v, unbiasedRandrange start stop ⟨s⟩ =
+          .ok (v, ⟨s.drop ((j + 1) * sizeBytes (stop - start))⟩))).card =
+      ((2 ^ sizeBits (stop - start) - (stop - start).toNat) *
+          2 ^ (8 * sizeBytes (stop - start) - sizeBits (stop - start))) ^ j *
+        ((stop - start).toNat * 2 ^ (8 * sizeBytes (stop - start) - sizeBits (stop - start))) *
+        (256 ^ sizeBytes (stop - start)) ^ (K - 1 - j) :=
+  PropAuxD.randrange_returnsAt_count h K j hj
+
+open Classical in
+/-- **at most two expected draws**: over the `256^(K·nb)` streams of `K` chunks, the sum over the draws `j+1 = 1..K` of
+`(j+1) ·` (number of streams on which the call returns exactly at draw `j+1`) is at most `2 · 256^(K·nb)`: the partial
+expectation of the number of draws (scaled by the number of streams) is at most 2, for every horizon `K` -/
+theorem randrange_expected_draws_le_two {start stop : Int} (h : start < stop) (K : Nat) :
+    (∑ j ∈ Finset.range K, (j + 1) *
+      ((bytesOfLen (K * sizeBytes (stop - start))).filter (fun s =>
+        ∃ v, unbiasedRandrange start stop ⟨s⟩ =
+          .ok (v, ⟨s.drop ((j + 1) * sizeBytes (stop - start))⟩))).card) ≤
+      2 * 256 ^ (K * sizeBytes (stop - start)) :=
+  PropAuxD.randrange_expected_draws_le_two h K
+
+/-- non-vacuity: range `[0, 11)`, two one-byte chunks: `0x1f, 0x2b` are both rejected (exhausted), `0x1f, 0x03` returns at
+draw 2 leaving nothing -/
+example : unbiasedRandrange 0 11 ⟨[0x1f, 0x2b]⟩ = raise .EntropyExhausted ∧
+    unbiasedRandrange 0 11 ⟨[0x1f, 0x03]⟩ = .ok (3, ⟨[]⟩) := by decide
 
 end Spake2Verif.C11
